@@ -916,11 +916,53 @@ def run_truthy_none(repo, res, modules):
     return n
 
 
-def pathsum_spec(res, rule, f, ref_src, meaning, node=None):
-    """The function (or the given inner node) is path-summary equivalent to the reference definition `ref_src` (sa/pathsum.py)."""
+def _inline_method_calls(fn, methods):
+    """Copy of fn in which `T = R.m()`, `R.m()` and `return R.m()` (m in methods: name -> FunctionDef, no arguments) are replaced
+    by m's body with self -> R."""
+    from .. import normalize as NZ
+    from ..expr import clone
+    fn = clone(fn)
+    for _round in range(3):
+        changed = False
+        for parent in ast.walk(fn):
+            for fld in ('body', 'orelse', 'finalbody'):
+                blk = getattr(parent, fld, None)
+                if not isinstance(blk, list):
+                    continue
+                for i, st in enumerate(blk):
+                    call = st.value if isinstance(st, (ast.Assign, ast.Expr, ast.Return)) and isinstance(getattr(st, 'value', None), ast.Call) else None
+                    if call is None or not isinstance(call.func, ast.Attribute) or call.func.attr not in methods or call.args or call.keywords:
+                        continue
+                    h = methods[call.func.attr]
+                    body = NZ._prepared_body(h, {h.args.args[0].arg: call.func.value}, None)
+                    if isinstance(st, ast.Assign):
+                        tg = st.targets
+                        new = NZ._returns_to(body, lambda e, tg=tg: [ast.Assign(targets=[clone(t) for t in tg], value=e)])
+                    elif isinstance(st, ast.Return):
+                        new = NZ._returns_to(body, lambda e: [ast.Return(value=e)])
+                    else:
+                        new = NZ._returns_to(body, lambda e: [])
+                    if new is None:
+                        continue
+                    blk[i:i + 1] = new or [ast.Pass()]
+                    changed = True
+                    break
+        if not changed:
+            break
+    ast.fix_missing_locations(fn)
+    return fn
+
+
+def pathsum_spec(res, rule, f, ref_src, meaning, node=None, inline=None):
+    """The function (or the given inner node) is path-summary equivalent to the reference definition `ref_src` (sa/pathsum.py).
+    inline: {method name: FunctionDef} - argument-less calls of these methods are expanded on both sides first."""
     from .. import pathsum as PS
     fn = node if node is not None else f.node
+    if inline:
+        fn = _inline_method_calls(fn, inline)
     ref = PS.parse_ref(ref_src)
+    if inline:
+        ref = _inline_method_calls(ref, inline)
     try:
         diff = PS.compare(fn, ref)
     except PS.TooComplex as exc:
